@@ -29,6 +29,9 @@ def joinB (elems : List Path) : Path :=
   | [] => []
   | es => clean (joinSep es)
 
+/-- the parent of `p` as the validator sees it ("" = root) -/
+def parentOf (p : Path) : Path := let d := dirB p; if d = [dot] then [] else d
+
 def hasPrefixB (pre p : Path) : Bool := pre.isPrefixOf p
 
 /-- sign of ComparePath -/
